@@ -157,12 +157,21 @@ func ZZ_C01_Linearizable() {
 		})
 	}
 	OPS := vfConfig("OPS", 2)
+	h := &zzHist{}
+	if vfConfig("PRELUDE", 0) == 1 {
+		// fill the entry pool first: two stores at capacity 1, one of them is evicted and recycled
+		for k := uint64(1); k <= 2; k++ {
+			o := h.begin(0, k, 50+k)
+			o.ok = s.Set(k, 50+k, 1, 0)
+			h.end(o)
+		}
+		s.Wait()
+	}
 	vfSetPreemptions(vfConfig("PRE", 1))
 	race := vfConfig("POOL", 0) == 0 // the happens-before monitor also runs here (pool off: the default configuration)
 	if race {
 		vfSetRaceDetector(true)
 	}
-	h := &zzHist{}
 	done := make(chan int, 2)
 	var tagA, tagB uint64 = 100, 200
 	go func() { zzC01Client(s, ls, h, &tagA, OPS); done <- 1 }()
